@@ -57,7 +57,7 @@ func Run(c *hx.Ctx) {
 	}
 
 	// ---- payloads ----
-	n := c.N(1000, 8000)
+	n := c.N(850, 8000)
 	for i := 0; i < n; i++ {
 		var in input
 		switch r := c.Intn(100); {
